@@ -130,7 +130,11 @@ func (g *Global) runUnit(u *Unit, timeout int, workers chan struct{}) *unitResul
 			defer wg.Done()
 			workers <- struct{}{}
 			defer func() { <-workers }()
-			o.Result = solve(o.script(), timeout, nil)
+			tmo := timeout
+			if o.Cover && tmo > 3 {
+				tmo = 3
+			}
+			o.Result = solve(o.script(), tmo, nil)
 			switch {
 			case o.Cover:
 				switch o.Result.Status {
